@@ -1,6 +1,7 @@
 """Helpers shared by the numeral engines (C05, C06): limbs, rv-num runner, judge events."""
 import concurrent.futures as cf
 import math
+import re
 import os
 
 import vlib
@@ -110,3 +111,45 @@ def num_event(res):
         same = unz(qv["n"]) == p // g and unlimbs(qv["d"]) == q // g
         single(res.get("qe"), res.get("qa"), "query", None if same else {"n": qv["n"], "d": qv["d"]})
     return {"p": res["p"], "q": res["q"], "base": base, "mode": res["mode"], "checks": checks}
+
+
+_verdict_re = re.compile(r'^<<"(REJECT|CRASH|UNSUPPORTED|NOTE)", (\d+)(?:, (.*))?>>$')
+
+
+def judge_detail(events, module, shards=8, tag="jd", timeout=3600, env=None, min_per_shard=150):
+    """Like evalkit.judge, but keeps what the judge printed after the line number:
+    returns (dict idx -> list of (tag, detail text), stats)."""
+    if not events:
+        return {}, {"distinct": 0, "generated": 0}
+    shards = max(1, min(shards, (len(events) + min_per_shard - 1) // min_per_shard))
+    bounds = [(len(events) * i // shards, len(events) * (i + 1) // shards) for i in range(shards)]
+
+    def one(i):
+        lo, hi = bounds[i]
+        path = vlib.workfile("%s-%d.ndjson" % (tag, i))
+        vlib.write_ndjson(path, events[lo:hi])
+        e = {"TRACE": path}
+        if env:
+            e.update(env)
+        r = vlib.tlc(module, module, workers=1, timeout=timeout, env=e, deque=True, tag=tag, xmx="4g")
+        if getattr(r, "timed_out", False):
+            raise vlib.ToolError("judge %s timed out" % module)
+        if not r.ok or r.distinct != (hi - lo) + 1:
+            vlib.log(r.stdout[-3000:])
+            raise vlib.ToolError("judge %s did not consume every line (%d of %d)" % (module, r.distinct - 1, hi - lo))
+        out = {}
+        for ln in r.stdout.splitlines():
+            m = _verdict_re.match(ln)
+            if m:
+                out.setdefault(lo + int(m.group(2)) - 1, []).append((m.group(1), m.group(3) or ""))
+        os.unlink(path)
+        return out, r
+
+    verdicts = {}
+    stats = {"distinct": 0, "generated": 0}
+    with cf.ThreadPoolExecutor(max_workers=shards) as ex:
+        for out, r in ex.map(one, range(shards)):
+            verdicts.update(out)
+            stats["distinct"] += r.distinct
+            stats["generated"] += r.generated
+    return verdicts, stats
